@@ -214,6 +214,40 @@ pub fn run(tier: &str) -> Result<Report, String> {
     rep.evaluations += fs.len() as u64;
     rep.set("preprocessed_trees_checked", json!(fs.len()));
     rep.violations.extend(bad);
+    // ... and deep quantifier nests: preprocessing names the k-th nested variable `x` repeated k times, so the trees it returns
+    // for 66 / 130 / 260 nested quantifiers carry names far longer than any name a user writes
+    {
+        let nests: Vec<String> = [66usize, 130, 260]
+            .iter()
+            .map(|d| {
+                let mut s = String::new();
+                for i in 0..*d {
+                    s.push_str(&format!("{}{{v{i}}}: ", ["!", "3", "V"][i % 3]));
+                }
+                format!("{s}(AX {{v0}} & {{v{}}})", d - 1)
+            })
+            .collect();
+        let nest_bad: Vec<Violation> = std::thread::Builder::new()
+            .stack_size(256 << 20)
+            .spawn(move || {
+                nests
+                    .iter()
+                    .filter_map(|text| match guarded(|| parse_and_minimize_extended_formula(&ctx, text)) {
+                        Ok(Ok(lib)) => check_lib_tree(&lib).map(|what| Violation { case: json!({"kind": "none"}), what: format!("tree produced by preprocessing of a nest of {} quantifiers: {what}", text.matches(": ").count()), size: 300 }),
+                        Ok(Err(e)) => Some(Violation { case: json!({"kind": "none"}), what: format!("preprocessing rejects a closed nest of {} quantifiers: {e}", text.matches(": ").count()), size: 300 }),
+                        Err(p) => Some(Violation { case: json!({"kind": "none"}), what: format!("panic in preprocessing of a nest of quantifiers: {p}"), size: 300 }),
+                    })
+                    .collect()
+            })
+            .unwrap()
+            .join()
+            .unwrap_or_else(|_| vec![Violation { case: json!({"kind": "machinery"}), what: "MACHINERY: nest thread panicked".into(), size: 0 }]);
+        if nest_bad.iter().any(|v| v.what.starts_with("MACHINERY")) {
+            return Err("the quantifier-nest thread of the harness panicked".into());
+        }
+        rep.evaluations += 3;
+        rep.violations.extend(nest_bad);
+    }
     // (iii-b) the public random-tree constructor: every (levels, seed) of a declared grid (it is a deterministic function of
     //         its seed; the grid is enumerated completely, nothing is sampled by the harness)
     {
@@ -248,6 +282,10 @@ pub fn run(tier: &str) -> Result<Report, String> {
             "細胞", "𝔸b", "a٣", "Ab_9_", "x", "xx", "var0",
             // words that other logics' concrete syntaxes use as operators (ordinary identifiers here)
             "not", "and", "or", "xor", "imp", "iff", "exists", "forall", "bind", "jump", "in", "until", "U", "W", "X", "G",
+            // long names (no documented bound on the length of a name)
+            "n234567890123456789012345678901234567890123456789012345678901234", "n2345678901234567890123456789012345678901234567890123456789012345",
+            "xxxxxxxxxxxxxxxxxxxxxxxxxxxxxxxxxxxxxxxxxxxxxxxxxxxxxxxxxxxxxxxxxxxxxxxxxxxxxxxxxxxxxxxxxxxxxxxxxxxxxxxxxxxxxxxxxxxxxxxxxxxxxxxxx",
+            "a_very_long_name_of_a_gene_or_protein_complex_as_they_occur_in_models_exported_from_databases_such_as_the_cell_collective_0123456789_0123456789_0123456789_0123456789_0123456789_0123456789_0123456789_0123456789_0123456789_0123456789_0123456789_0123456789_0123456789_0123456789_0123456789",
         ];
         let mut n_id = 0u64;
         let a = || T::Prop("a".into());
